@@ -369,7 +369,7 @@ def run(ctx):
         gen_and_replay("g_flow3", 6, consts(6, 2, spans="{1}"), 7, 2, freewd=False, vary=True)
         gen_and_replay("g_roll", 4, consts(4, 1, spans="{2}"), 7, 3, freewd=False, vary=True)
         gen_and_replay("g_del", 5, consts(5, 1, spans="{1}", deletes=True), 5, 4, freewd=False, vary=True)
-        gen_and_replay("g_del6", 5, consts(5, 1, spans="{1}", deletes=True), 4, 6, freewd=False, vary=True)
+        gen_and_replay("g_del6", 5, consts(5, 1, spans="{2}", deletes=True), 4, 6, freewd=False, vary=True)
         exhaustive_n = sum(g["histories"] for g in gens)
         gen_and_replay("s_any", 5, consts(5, 3, spans="{0, 1, 2, 3}", anyfile=True), 9, 0, simulate="num=250",
                        simdepth=10, keep=0.2, vary=True)
